@@ -121,6 +121,46 @@ type knownFindings struct {
 	fixed    []string
 }
 
+// match finds the finding whose key equals k, or whose key pattern (with '*' wildcards) matches k.
+func (k knownFindings) match(prop, key string) (string, bool) {
+	if _, ok := k.findings[prop+"|"+key]; ok {
+		return key, true
+	}
+	pats := make([]string, 0)
+	for pk := range k.findings {
+		if strings.HasPrefix(pk, prop+"|") && strings.Contains(pk, "*") {
+			pats = append(pats, strings.TrimPrefix(pk, prop+"|"))
+		}
+	}
+	sort.Strings(pats)
+	for _, p := range pats {
+		if globMatch(p, key) {
+			return p, true
+		}
+	}
+	return "", false
+}
+
+// globMatch matches s against pattern p where '*' matches any (possibly empty) substring.
+func globMatch(p, s string) bool {
+	parts := strings.Split(p, "*")
+	if len(parts) == 1 {
+		return p == s
+	}
+	if !strings.HasPrefix(s, parts[0]) {
+		return false
+	}
+	s = s[len(parts[0]):]
+	for i := 1; i < len(parts)-1; i++ {
+		j := strings.Index(s, parts[i])
+		if j < 0 {
+			return false
+		}
+		s = s[j+len(parts[i]):]
+	}
+	return strings.HasSuffix(s, parts[len(parts)-1])
+}
+
 func loadKnown() knownFindings {
 	k := knownFindings{findings: map[string]string{}}
 	f, err := os.Open(filepath.Join(verifDir, "known_findings.txt"))
@@ -402,12 +442,26 @@ func runCheck(prop, tier string) int {
 	var fresh []violation
 	for _, v := range viols {
 		if v.Key != "" {
-			if _, ok := known.findings[prop+"|"+v.Key]; ok {
-				maskedByKey[v.Key]++
+			if pat, ok := known.match(prop, v.Key); ok {
+				maskedByKey[pat]++
 				continue
 			}
 		}
 		fresh = append(fresh, v)
+	}
+	// exact totals per key come from the workers' counters (texts are capped per key)
+	for pat := range maskedByKey {
+		total := 0
+		for ck, cv := range counters {
+			if strings.HasPrefix(ck, "violation_key:") {
+				if p2, ok := known.match(prop, strings.TrimPrefix(ck, "violation_key:")); ok && p2 == pat {
+					total += cv
+				}
+			}
+		}
+		if total > maskedByKey[pat] {
+			maskedByKey[pat] = total
+		}
 	}
 	keys := make([]string, 0, len(maskedByKey))
 	for k := range maskedByKey {
@@ -455,11 +509,15 @@ func runCheck(prop, tier string) int {
 	if len(samples) == 0 {
 		cov["samples"] = []any{"(no sample recorded)"}
 	}
-	if spec.Level == "model_checking" {
+	if spec.Level == "model_checking" && len(states) > 0 && len(trans) > 0 {
 		cov["states"] = len(states)
 		cov["transitions"] = len(trans)
 		cov["traces_validated_against_impl"] = evals
 		cov["explanation"] = "every explored trace is an execution of the real implementation (stateless search over the real code); states/transitions are canonical digests of quiescent points"
+	}
+	if spec.Level == "model_checking" && len(states) == 0 {
+		cov["traces_validated_against_impl"] = evals
+		cov["explanation"] = "stateless model checking: every enumerated execution runs on the real implementation; this check does not record canonical state digests, so evaluations/distinct_nontrivial are reported instead of states/transitions"
 	}
 	seedInt, _ := strconv.ParseInt(seed, 10, 64)
 	ev := map[string]any{
